@@ -99,6 +99,8 @@ pub(crate) struct MRadio {
     pub(crate) fail_at: usize,
     pub(crate) tx_calls: usize,
     pub(crate) tx_ok: usize,
+    /// every receive window receives a frame (no window times out): keeps a harness to RX1
+    pub(crate) always_rx: bool,
 }
 impl MRadio {
     fn step(&mut self) -> Result<(), ()> {
@@ -129,7 +131,7 @@ impl radio::PhyRxTx for MRadio {
     }
     async fn rx_single(&mut self, _buf: &mut [u8]) -> Result<radio::RxStatus, ()> {
         self.step()?;
-        if kani::any() {
+        if self.always_rx || kani::any() {
             let n: usize = kani::any();
             kani::assume(n <= 255);
             Ok(radio::RxStatus::Rx(n, radio::RxQuality::new(kani::any(), kani::any())))
